@@ -4,6 +4,8 @@ import Helm.Props.C03
 #print axioms Helm.Props.C03.rollback_hook_failure_marks_failed
 #print axioms Helm.Props.C03.rollback_hook_failure_instance
 #print axioms Helm.Props.C03.rollback_update_failure_marks_failed
+#print axioms Helm.Props.C03.upgrade_failure_contained
+#print axioms Helm.Props.C03.atomic_upgrade_failure_restores
 #print axioms Helm.Props.C03.upgrade_failure_contained_instance
 #print axioms Helm.Props.C03.atomic_upgrade_restores_instance
 #print axioms Helm.Props.C03.atomic_install_leaves_nothing_instance
